@@ -35,6 +35,25 @@ def instance(chk, name, mode, minn, maxn, scripts, base="N", kinds=("route",), o
     return res, s
 
 
+def recorded(chk, n, only):
+    """O3: random chains (<=63 handlers, arbitrary scripts, panics, hooks) recorded from the real router, validated by TLC"""
+    tr = os.path.join(core.scratch(), "chain-trace.ndjson")
+    s = core.run_harness(["chainrec", "record", tr, n], env={"VERIF_SEED": chk.seed})
+    const = dict(DEV, MaxInt=127, AbortIdx=63)
+    ok, bad, r = core.validate_trace("TraceChain", tr, constants=const, timeout=1800)
+    chk.add_tlc(r, "trace validation: %d recorded requests over random chains" % s["cases"])
+    chk.traces += s["cases"]
+    chk.extra["recorded"] = dict(requests=s["cases"])
+    chk.sample(dict(recorded_request=core.trace_line(tr, 1)))
+    if not ok:
+        ev = core.trace_line(tr, bad)
+        chk.violation(dict(kind="chain-trace", aspect="log", chain_len=ev.get("n", 0), line=bad,
+                           what="recorded request over a chain of %d handlers (%s) is not the ideal dispatch: log %s writer %s escaped=%s; chain %s" % (
+                               ev.get("n", 0), ev.get("kind"), json.dumps(ev.get("log"))[:400], json.dumps(ev.get("under"))[:200],
+                               ev.get("escaped"), json.dumps(ev.get("chain"))[:600])),
+                      dict(family="chainrec", seed=chk.seed, n=n, line=bad))
+
+
 def neg_creeps(chk):
     r = core.run_tlc("MC_Chain", cfg_text=ccfg("uniform", 40, 63, ["NN"], emit=False, D_NextCreeps=True), timeout=600)
     chk.expect_fails(r, "MC_Chain[D_NextCreeps] uniform NN n<=63 (int8 overflow)", None)
@@ -69,6 +88,7 @@ def run(chk):
     else:
         instance(chk, "odd", "odd", 44, 47, ["R", "NN"], base="N")
     chk.exhaustive = True
+    recorded(chk, 3000 if thorough else 400, ORDER)
     neg_creeps(chk)
 
 
